@@ -4,7 +4,7 @@ import time
 
 from .index import Repo, AnalysisError, FuncInfo, norm
 from .resolve import Resolver, walk_own
-from .cfg import cfg_of
+from .cfg import cfg_of, reachable_without_edges
 from . import const as K
 from .report import RuleRun
 
@@ -195,6 +195,42 @@ class Analysis:
                         todo.append(m)
             else:
                 todo.extend(m for m, _l in n.succs)
+        return out
+
+    @staticmethod
+    def canonical_atom(e):
+        """(text, polarity): a condition and its negation share the text.
+        `x is not None` -> ('x is None', False); `b == a` -> ('a == b', True);
+        `k not in d` -> ('k in d', False); anything else -> (norm, True)."""
+        if isinstance(e, ast.UnaryOp) and isinstance(e.op, ast.Not):
+            t, p = Analysis.canonical_atom(e.operand)
+            return t, not p
+        if isinstance(e, ast.Compare) and len(e.ops) == 1:
+            l, r, op = norm(e.left), norm(e.comparators[0]), e.ops[0]
+            if isinstance(op, (ast.Is, ast.IsNot)):
+                a, b = (l, r) if r in ('None', 'True', 'False') else (r, l) \
+                    if l in ('None', 'True', 'False') else tuple(sorted((l, r)))
+                return '%s is %s' % (a, b), isinstance(op, ast.Is)
+            if isinstance(op, (ast.Eq, ast.NotEq)):
+                a, b = sorted((l, r))
+                return '%s == %s' % (a, b), isinstance(op, ast.Eq)
+            if isinstance(op, (ast.In, ast.NotIn)):
+                return '%s in %s' % (l, r), isinstance(op, ast.In)
+        return norm(e), True
+
+    def path_facts(self, func, node):
+        """{(canonical atom, truth)} of the conditions that are decided the
+        same way on every path that reaches `node` (edge dominance)."""
+        cfg = self.cfg(func)
+        out = set()
+        for t in cfg.nodes:
+            if t.kind != 'cond' or t is node:
+                continue
+            for lab in (True, False):
+                if node.id not in reachable_without_edges(
+                        cfg, cfg.entry, {(t.id, lab)}):
+                    text, pol = self.canonical_atom(t.ast)
+                    out.add((text, pol == lab))
         return out
 
     def normalised(self, func, keep=()):
